@@ -468,8 +468,9 @@ func init() {
 		if t.IsConst() {
 			return Str{S: strconv.FormatInt(t.Signed(), 10)}
 		}
-		v := ex.concretize(t, -1<<40, 1<<40, "strconv.Itoa")
-		return Str{S: strconv.FormatInt(v, 10)}
+		// decimal text of a symbolic integer: opaque (only feeds name-service lookups here)
+		ex.res.Truncated = append(ex.res.Truncated, "note: symbolic integer formatted as text")
+		return Str{S: "<sym>"}
 	}
 
 	// --- errors.Is / errors.As ---
